@@ -283,7 +283,7 @@ Lemma it_next_refines : forall i m ctx its s r its' s1,
   it_next spn run m i ctx its s = (r, its', s1) -> inv s ->
   npost m s s1 r its' (it_snext toks spn srun i ctx its (cur s) (alt s)).
 Proof.
-  induction i as [a lo hi|a sep lo hi lead trail|j IHj|f j IHj|f j IHj|a|a lo hi];
+  induction i as [a lo hi|a sep lo hi lead trail|j IHj|f j IHj|f j IHj|a|a lo hi ck];
     intros m ctx its s r its' s1 H Hi; cbn [it_next it_snext] in *.
   - (* IRep *)
     destruct its; try (injection H as <- <- <-; exact I).
